@@ -141,6 +141,130 @@ theorem bpe_special_literal (pinned : Bool) (V : Vocab) (split : Str → List St
   rw [hfr]
   simp [bpeFrag]
 
+/-! ## SentencePiece -/
+
+theorem spmFrags_decode (V : Vocab) (hwf : V.Wf) (hbt : V.HasByteTokens)
+    (hsep : (V.tokId [sepRune]).isSome = true) (frs : List Frag)
+    (htext : ∀ t, Frag.text t ∈ frs → (∀ r ∈ t, r < 0x110000) ∧ sepRune ∉ t ∧ NoByteLit t)
+    (hsp : ∀ q, Frag.special q ∈ frs → spmDecodeTok V q.id = some (utf8s q.lit)) :
+    spmDecode V (frs.flatMap (spmFrag V)) = some (utf8s (fragsLit frs)) := by
+  induction frs with
+  | nil => rfl
+  | cons fr frs ih =>
+    have hr := ih (fun t ht => htext t (List.mem_cons_of_mem _ ht)) (fun q hq => hsp q (List.mem_cons_of_mem _ hq))
+    have hl : fragsLit (fr :: frs) = fr.lit ++ fragsLit frs := by simp [fragsLit]
+    simp only [List.flatMap_cons]
+    rw [hl, utf8s_append]
+    apply spmDecode_append V _ _ _ _ _ hr
+    cases fr with
+    | text t =>
+      obtain ⟨h1, h2, h3⟩ := htext t (by simp)
+      exact spmText_decode V hwf hbt hsep t h1 h2 h3
+    | special q =>
+      have := hsp q (by simp)
+      simp [spmFrag, spmDecode, this, Frag.lit]
+
+/-- **SentencePiece round trip, partial.**  For every well-formed vocabulary that has the 256 byte
+    tokens and the token `▁`, every list of special tokens (vocabulary string = literal) and every
+    text (as code points, all valid) that (guard 1) does not itself contain U+2581 and (guard 2) has no
+    contiguous piece whose UTF-8 is a byte-token literal `<0x??>`:
+    `Decode (Encode s)` is the UTF-8 encoding of `s`.
+    Both guards are necessary (witnesses below): they are inherent to the scheme. -/
+theorem spm_roundtrip_partial (V : Vocab) (specials : List Special) (s : Str)
+    (hwf : V.Wf) (hbt : V.HasByteTokens) (hsep : (V.tokId [sepRune]).isSome = true)
+    (hsp : ∀ q ∈ specials, V.tokStr q.id = q.lit)
+    (hvalid : ∀ r ∈ s, r < 0x110000) (hnosep : sepRune ∉ s) (hnolit : NoByteLit s) :
+    spmDecode V (spmEncode V specials noAdd s) = some (utf8s s) := by
+  unfold spmEncode
+  have hadd : ∀ ids, addSpecials noAdd ids = ids := by intro ids; simp [addSpecials, noAdd]
+  have hfl := fragments_lit specials s
+  have hpiece : ∀ fr ∈ fragments specials s, ∃ a b, s = a ++ fr.lit ++ b := by
+    intro fr hfr
+    obtain ⟨a, b, hab⟩ := mem_flatten_split _ fr.lit (List.mem_map.mpr ⟨fr, hfr, rfl⟩)
+    refine ⟨a, b, ?_⟩
+    rw [← hab]; exact hfl.symm
+  rw [hadd, spmFrags_decode V hwf hbt hsep, hfl]
+  · intro t ht
+    obtain ⟨a, b, hab⟩ := hpiece _ ht
+    simp only [Frag.lit] at hab
+    refine ⟨fun r hr => hvalid r (by rw [hab]; simp [hr]), fun h => hnosep (by rw [hab]; simp [h]),
+      hnolit.infix a t b hab⟩
+  · intro q hq
+    obtain ⟨a, b, hab⟩ := hpiece _ hq
+    simp only [Frag.lit] at hab
+    have hno : sepRune ∉ q.lit := fun h => hnosep (by rw [hab]; simp [h])
+    have hstr := hsp q (fragments_from specials s _ hq q rfl)
+    have hnl : parseByteTok (utf8s q.lit) = none := hnolit a q.lit b hab
+    simp [spmDecodeTok, hstr, map_sepToSpace_id q.lit hno, hnl]
+
+/-- every id produced for a text fragment is the id of some vocabulary string -/
+theorem spmText_ids (V : Vocab) (t : Str) : ∀ id ∈ spmText V t, ∃ u, V.tokId u = some id := by
+  intro id hid
+  unfold spmText at hid
+  simp only at hid
+  split at hid
+  · rename_i i hi
+    simp at hid; subst hid; exact ⟨_, hi⟩
+  · simp only [List.mem_flatMap] at hid
+    obtain ⟨p, _, hp⟩ := hid
+    unfold spmToken at hp
+    split at hp
+    · rename_i i hi
+      simp at hp; subst hp; exact ⟨_, hi⟩
+    · simp only [List.mem_filterMap] at hp
+      obtain ⟨b, _, hb⟩ := hp
+      exact ⟨_, hb⟩
+
+/-- **SentencePiece: every id `Encode` returns is inside the vocabulary.** -/
+theorem spm_ids_in_range (V : Vocab) (specials : List Special) (c : AddCfg) (s : Str) (hwf : V.Wf)
+    (hsp : ∀ q ∈ specials, q.id < V.size) (hbos : c.bos < V.size) (heos : c.eos < V.size) :
+    ∀ id ∈ spmEncode V specials c s, id < V.size := by
+  intro id hid
+  unfold spmEncode at hid
+  rcases mem_addSpecials c _ id hid with h | ⟨_, _, rfl⟩ | ⟨_, _, rfl⟩
+  · simp only [List.mem_flatMap] at h
+    obtain ⟨fr, hfr, hidf⟩ := h
+    cases fr with
+    | text t =>
+      obtain ⟨u, hu⟩ := spmText_ids V t id hidf
+      exact (hwf _ _ hu).2
+    | special q =>
+      simp only [spmFrag, List.mem_singleton] at hidf
+      subst hidf
+      exact hsp q (fragments_from specials s _ hfr q rfl)
+  · exact hbos
+  · exact heos
+
+/-- a small sentencepiece vocabulary: id 0..255 = byte tokens, 256 = `▁`, 257 = `a` -/
+def spmVocab : Vocab where
+  tokId s := if s = [sepRune] then some 256 else if s = [97] then some 257 else
+    match s with
+    | [60, 48, 120, c1, c2, 62] =>
+      (match hexVal c1, hexVal c2 with
+       | some x, some y => if byteTok (16 * x + y) = s then some (16 * x + y) else none
+       | _, _ => none)
+    | _ => none
+  tokStr i := if i = 256 then [sepRune] else if i = 257 then [97] else byteTok i
+  rank _ _ := none
+  score _ := 0
+  size := 258
+
+/-- **Guard 1 is necessary:** the text `▁` decodes to a space. -/
+theorem spm_sep_witness :
+    spmDecode spmVocab (spmEncode spmVocab [] noAdd [sepRune]) = some [32] ∧
+    utf8s [sepRune] = [0xE2, 0x96, 0x81] := by decide
+
+/-- **Guard 2 is necessary:** the text `<0x41>` is found by the whole-fragment shortcut as the byte
+    token and decodes to `A`. -/
+theorem spm_byte_literal_witness :
+    spmDecode spmVocab (spmEncode spmVocab [] noAdd (byteTok 0x41)) = some [0x41] := by decide
+
+/-- non-vacuity of `spm_roundtrip_partial`: `spmVocab` has the byte tokens and `▁`, and the text
+    "a a" meets both guards' easy half (no U+2581) and round-trips -/
+example : spmVocab.HasByteTokens ∧ (spmVocab.tokId [sepRune]).isSome = true ∧
+    spmDecode spmVocab (spmEncode spmVocab [] noAdd [97, 32, 97]) = some [97, 32, 97] := by
+  refine ⟨by unfold Vocab.HasByteTokens; decide +kernel, by decide, by decide⟩
+
 /-! ## findings: Lean-checked witnesses on the model (which mirrors the pinned code) -/
 
 /-- a tiny covering vocabulary: every rune is the token whose id is the rune; no merges -/
